@@ -4,8 +4,8 @@ CONSTANTS NAcc = 1
           MaxVal = 1
           MaxDiffs = {1, 2}
           HistLimits = {0, 2}
-          Policies = {"always", "never"}
-          Asyncs = {FALSE, TRUE}
+          Policies = {"any"}
+          Asyncs = {TRUE}
           MaxId = 3
 INVARIANTS TypeOK ViewIsRoot Aligned HistChain PersistedIsCanon RecoverableSound
 PROPERTIES RecoverRestores RecoverFailKeeps
